@@ -12,6 +12,9 @@ Fixpoint patb (n : nat) (x : N) : bytes :=
   | S n' => x :: patb n' (x mod 7 + 1)
   end.
 
+(* large numbers are written by the harness as their big-endian bytes *)
+Definition nb (b : bytes) : N := fold_left (fun a x => a * 256 + x) b 0.
+
 Inductive val : Type :=
 | VN (n : N)
 | VB (b : bytes)
